@@ -102,28 +102,38 @@ def rot_check(ctx, repo, q, lat_name, transpose):
     Z = asn[0].args[0]
     # ASIN-CLIP: the z component is a sum of products of sines and cosines; rounding can carry it to 1.0000000000000002 at the
     # pole of the great circle, where arcsin returns NaN.  It must be clamped to exactly [-1, 1] and nothing inside may change.
+    clipped, why, snapped = False, 'no clamp: `%s`' % src(Z)[:50], None
     Zd = fa.deep(Z)
-    clipped, why = False, 'no clamp: `%s`' % src(Z)[:50]
-    if isinstance(Zd, ast.Call) and call_name(Zd) == 'clip' and len(Zd.args) + len(Zd.keywords) >= 3:
-        lo, hi = (Zd.args + [k.value for k in Zd.keywords])[1:3]
-        clipped = try_fold(lo) == -1 and try_fold(hi) == 1
-        why = 'clip bounds %s, %s' % (src(lo), src(hi))
-        Z = Zd.args[0]
-    elif isinstance(Zd, ast.Call) and call_name(Zd) in ('minimum', 'maximum') and len(Zd.args) == 2 and isinstance(Zd.args[0], ast.Call) \
-            and call_name(Zd.args[0]) in ('minimum', 'maximum') and call_name(Zd.args[0]) != call_name(Zd):
-        b1, b2 = try_fold(Zd.args[1]), try_fold(Zd.args[0].args[1])
-        clipped = {call_name(Zd): b1, call_name(Zd.args[0]): b2} == {'minimum': 1, 'maximum': -1}
-        why = 'min/max bounds %s, %s' % (b1, b2)
-        Z = Zd.args[0].args[0]
-    elif isinstance(Zd, ast.Call) and call_name(Zd) == 'where' and len(Zd.args) == 3:
-        # np.where(|z| > c, sign(z), z): in-range values are altered unless c >= 1
-        cond = Zd.args[0]
-        c_ = try_fold(cond.comparators[0]) if isinstance(cond, ast.Compare) and len(cond.ops) == 1 else None
-        clipped = isinstance(cond, ast.Compare) and isinstance(cond.ops[0], (ast.Gt, ast.GtE)) and isinstance(c_, (int, float)) and c_ >= 1 \
-            and 'sign' in src(Zd.args[1])
-        why = 'np.where snaps |z| > %s to +-1: points within %s of the pole are moved onto it' % (src(cond.comparators[0]) if isinstance(cond, ast.Compare) else '?',
-                                                                                              'a fixed tolerance')
-        Z = Zd.args[2]
+    for _ in range(4):
+        Zd = fa.deep(Z)
+        if isinstance(Zd, ast.Call) and call_name(Zd) == 'clip' and len(Zd.args) + len(Zd.keywords) >= 3:
+            lo, hi = (Zd.args + [k.value for k in Zd.keywords])[1:3]
+            clipped = try_fold(lo) == -1 and try_fold(hi) == 1
+            why = 'clip bounds %s, %s' % (src(lo), src(hi))
+            Z = Zd.args[0]
+        elif isinstance(Zd, ast.Call) and call_name(Zd) in ('minimum', 'maximum') and len(Zd.args) == 2 and isinstance(Zd.args[0], ast.Call) \
+                and call_name(Zd.args[0]) in ('minimum', 'maximum') and call_name(Zd.args[0]) != call_name(Zd):
+            b1, b2 = try_fold(Zd.args[1]), try_fold(Zd.args[0].args[1])
+            clipped = {call_name(Zd): b1, call_name(Zd.args[0]): b2} == {'minimum': 1, 'maximum': -1}
+            why = 'min/max bounds %s, %s' % (b1, b2)
+            Z = Zd.args[0].args[0]
+        elif isinstance(Zd, ast.Call) and call_name(Zd) == 'where' and len(Zd.args) == 3:
+            # np.where(|z| > c, sign(z), z): in-range values are altered unless c >= 1
+            cond = Zd.args[0]
+            c_ = try_fold(cond.comparators[0]) if isinstance(cond, ast.Compare) and len(cond.ops) == 1 else None
+            exact = isinstance(cond, ast.Compare) and isinstance(cond.ops[0], (ast.Gt, ast.GtE)) and isinstance(c_, (int, float)) and c_ >= 1 \
+                and 'sign' in src(Zd.args[1])
+            if exact:
+                clipped = True
+                why = 'np.where clamp at |z| > %s' % c_
+            else:
+                snapped = 'np.where snaps |z| > %s to +-1: points within a fixed tolerance of the pole are moved onto it' % (
+                    src(cond.comparators[0]) if isinstance(cond, ast.Compare) else '?')
+            Z = Zd.args[2]
+        else:
+            break
+    if snapped:
+        clipped, why = False, snapped
     ctx.check('C18.ASIN-CLIP', clipped, f, asn[0], '%s: the arcsin argument is clamped to exactly [-1, 1] (%s)' % (q, why),
               msg='%s: arcsin receives %s: at the pole of a stripe\'s great circle rounding gives |z| = 1 + 2e-16 and the latitude is NaN '
                   '(or in-range values are altered by a tolerance below 1)' % (q, why), construct='%s arcsin argument: %s' % (q, src(Zd)[:70]))
